@@ -157,8 +157,10 @@ impl crate::fold::Fold<TextRange> for LinearLocator<'_> {
 
         let name = self.fold(name)?;
         let type_params = self.fold(type_params)?;
+        // keywords may precede starred bases in the source (`class A(x=1, *b)`): like call
+        // keywords they are located by look-ahead so that the cursor never has to go back
+        let keywords = LinearLookaheadLocator(self).fold(keywords)?;
         let bases = self.fold(bases)?;
-        let keywords = self.fold(keywords)?;
         let body = self.fold(body)?;
         let range = self.map_user(range, context)?;
 
